@@ -204,9 +204,13 @@ def run(F, R, tier):
             % sorted(h.rsplit("::", 1)[-1] for h in holders),
             "new type(s) can hold an identity beyond the connection object: %s" % sorted(extra))
     R.tables["C07.identity_holders"] = {k: v for k, v in allowed.items()}
-    statics = [c for c in F.consts.values() if ("proxy::Claims" in c["ty"] or "AuditEntry" in c["ty"] or "TcpConnectionContext" in c["ty"])]
+    # proxy::Process is the per-connection half of Claims (pid, name, path, command line of the caller, resolved from the audit
+    # entry's pid); a static holding it outlives the connection it was resolved for. (proxy::User is a function of the logon id alone
+    # and is cached by design.)
+    statics = [c for c in F.consts.values() if ("proxy::Claims" in c["ty"] or "AuditEntry" in c["ty"] or "TcpConnectionContext" in c["ty"]
+                                                or "proxy::Process" in c["ty"])]
     R.check(not statics, "C07.R3", "C07.R3:no-static-identity", "-",
-            "no static / const has a type containing Claims, AuditEntry or TcpConnectionContext (%d statics/consts scanned)" % len(F.consts),
+            "no static / const has a type containing Claims, proxy::Process, AuditEntry or TcpConnectionContext (%d statics/consts scanned)" % len(F.consts),
             "static identity state: %s" % [c["id"] for c in statics])
     # requests take the context by clone of the accepted connection's object
     hnr_callers = G.callers(PS + "handle_new_http_request")
